@@ -45,7 +45,7 @@ def h_quantify(ctx):
     tu = w.term(u)
     ex = ctx.fn(fol.Context.exist)
     fa = ctx.fn(fol.Context.forall)
-    forms = (set, list, tuple, frozenset, lambda q: dict.fromkeys(q).keys())
+    forms = (set, list, tuple, frozenset)
     n = 0
     for k in range(0, len(names) + 1):
         for qv in itertools.combinations(names, k):
